@@ -25,9 +25,9 @@ func init() {
 
 // reviewedLoops: irregular loops accepted after review, keyed by function + descriptor, with the invariant that bounds them.
 var reviewedLoops = map[string]string{
-	"Graph.EdgeToPath|walk":     "follows the predecessor map of one Dijkstra run; that map is acyclic because a vertex's predecessor is only set while the vertex is unvisited and from an already visited vertex (rule HEAP-H3 not-visited, checked in this run)",
-	"Graph.KahnSort|worklist":   "every iteration removes one vertex from the work list; a vertex is pushed only when its last incoming edge is removed, which happens at most once per vertex on the private copy",
-	"stronglyConnected|pop":     "the stack holds the vertex being finished (pushed by visit before any pop), so popping until it appears stops after at most len(stack) steps; pop returns nil only on an empty stack, which v never equals",
+	"Graph.EdgeToPath|walk":      "follows the predecessor map of one Dijkstra run; that map is acyclic because a vertex's predecessor is only set while the vertex is unvisited and from an already visited vertex (rule HEAP-H3 not-visited, checked in this run)",
+	"Graph.KahnSort|worklist":    "every iteration removes one vertex from the work list; a vertex is pushed only when its last incoming edge is removed, which happens at most once per vertex on the private copy",
+	"stronglyConnected|pop":      "the stack holds the vertex being finished (pushed by visit before any pop), so popping until it appears stops after at most len(stack) steps; pop returns nil only on an empty stack, which v never equals",
 	"Graph.Dijkstra|queue-drain": "mechanical: the loop pops one item per iteration and never pushes",
 }
 
